@@ -33,7 +33,7 @@ DEFAULT = {"merge": "inline", "input": None, "output": None, "ignore_transients"
 
 def plan(tier, seed):
     if tier == "quick":
-        return [{"triples": 110, "timeout": 900} for i in range(NSHARDS)]
+        return [{"triples": 330, "timeout": 900} for i in range(NSHARDS)]
     return [{"triples": 1700, "timeout": 3000} for i in range(NSHARDS)]
 
 
